@@ -75,6 +75,26 @@ func VerifC09() {
 		rt.Reach("c09.norollover")
 		rt.Assert(got == inWindow, "when no recorder overlaps a rollover the reported sum is exactly the recorded total")
 	}
+	// a recorder that is alone in the newest bucket cannot overlap another recorder's rollover of that bucket
+	// (stale recorders never roll a bucket forward): what it recorded is reported while that bucket is current
+	if rdGot < 0 {
+		newest, cnt := uint64(0), 0
+		for i := 0; i < W; i++ {
+			if b := nows[i] / bl * bl; b > newest {
+				newest, cnt = b, 1
+			} else if b == newest {
+				cnt++
+			}
+		}
+		if cnt == 1 && tr/bl*bl == newest && newest != t0/bl*bl {
+			rt.Reach("c09.alone-in-newest")
+			for i := 0; i < W; i++ {
+				if nows[i]/bl*bl == newest {
+					rt.Assert(got >= ns[i], "what the only recorder of the newest bucket recorded is not lost (a late recorder of an older bucket must not reset it)")
+				}
+			}
+		}
+	}
 	if W == 1 && rdGot < 0 {
 		rt.Assert(got == inWindow, "a single recorder is always reported exactly")
 	}
